@@ -97,18 +97,25 @@ def run(case):
         import dask.array as da
         payload = da.from_array(data, chunks=2)
     meta = {"m": 1}
-    cube = NDCube(payload, wcs=lin_wcs(len(shape)), mask=mask if not (case["dask"] and isinstance(mask, np.ndarray)) else
+    import zlib
+    # with a dask payload an array mask is itself a dask array, or (every other case) a plain numpy array
+    dask_mask = case["dask"] and isinstance(mask, np.ndarray) and zlib.crc32(("dm" + case["key"]).encode()) % 2 == 0
+    cube = NDCube(payload, wcs=lin_wcs(len(shape)), mask=mask if not dask_mask else
                   __import__("dask.array", fromlist=["x"]).from_array(mask, chunks=2), unit=u.ct, meta=meta)
     poke(cube, case["key"])
     kind, bl = case["bins"]
     bins = {"ints": lambda: tuple(int(b) for b in bl), "floats": lambda: tuple(float(b) for b in bl),
-            "qty_pix": lambda: np.array(bl) * u.pix, "qty_m": lambda: np.array(bl) * u.m}[kind]()
+            # a pixel Quantity in pixels, or (every other case) in another unit convertible to pixels
+            "qty_pix": lambda: np.array(bl) * u.pix if zlib.crc32(("qp" + case["key"]).encode()) % 2 else (np.array(bl) / 2.0) * u.Unit(2 * u.pix),
+            "qty_m": lambda: np.array(bl) * u.m}[kind]()
+    # the switch as a Python bool, a numpy bool (e.g. the result of .any()) or an int
+    ignores_arg = [case["ignores"], np.bool_(case["ignores"]), int(case["ignores"])][zlib.crc32(("ig" + case["key"]).encode()) % 3]
     hm = {"all": np.all, "any": np.any, "none": None}[case["hm"]]
     op = _np_op(case["op"])
     new_unit = u.m if case["new_unit"] else None
     why = []
     try:
-        r = cube.rebin(bins, operation=op, operation_ignores_mask=case["ignores"], handle_mask=hm, new_unit=new_unit)
+        r = cube.rebin(bins, operation=op, operation_ignores_mask=ignores_arg, handle_mask=hm, new_unit=new_unit)
         exc = None
     except Exception as e:  # noqa
         r, exc = None, exc_name(e)
